@@ -85,6 +85,47 @@ CHECKS = {
         design="DESIGN.md §4 C19",
         note="Trusted: vlib/mdp.py interpreter; EMA convention of the LoggingCallback docstring. 12 mutants (see mutants/C19.json).",
     ),
+    "C08": dict(
+        technique="property-based testing (Hypothesis) of the static loss functions and one optimiser step against float64 reference formulas",
+        text="Generated buffers (advantages, returns, stored values/log-probs with log-ratios spread over +-1.5) and real "
+        "MLPActorCriticPolicy instances over Discrete / Box scalar / Box vector / MultiBinary / MultiDiscrete action spaces: "
+        "PPO.ppo_loss, A2C.a2c_loss and REINFORCE.reinforce_loss values and every stats field vs NumPy float64 formulas from the "
+        "statement (clipped surrogate, PPO2 value clipping with max, joint entropy, approx KL); per-row gradient support of the "
+        "clipped surrogate (zero exactly on saturated rows, non-zero elsewhere); train_batch/train output vs "
+        "clip_by_global_norm+adam applied by the harness to the gradient of a float64 transcription (below and above the norm bound).",
+        design="DESIGN.md §4 C08",
+        note="Trusted: the policy's evaluate_action per-sample outputs; optax; NumPy float64. 15 mutants all caught. The fresh-data law (ratio 1, KL 0) is checked in C04.",
+    ),
+    "C09": dict(
+        technique="property-based testing (Hypothesis) of the buffer API with id-encoded rows; end-to-end visit-count recovery through PPO.train by gradient tagging",
+        text="Buffers whose every leaf encodes the sample id: flatten_axes / batch_indices / gather / batches / sample checked for "
+        "partition and row integrity over generated (num_envs, num_steps, batch_size, pytree observation kinds, keys); PPO.train run "
+        "end-to-end with a tagging policy (value table per sample, plain SGD, value loss only) so visit counts are recovered exactly "
+        "from (v-ret)=2^-k for seeded (num_envs, num_steps, num_batches, num_epochs) configurations x 12 keys: at most once per epoch, "
+        "exactly floor(N/B)*B per epoch, dropped set varies with the key, epochs reshuffle; misaligned row fields poison the value "
+        "(NaN) and trip lerax's own finiteness check.",
+        design="DESIGN.md §4 C09",
+        note="Trusted: x64 exactness of 2^-k; optax.sgd substituted through the public optimizer field. 9 mutants all caught.",
+    ),
+    "C10": dict(
+        technique="property-based testing over iteration histories (Hypothesis) with a schedule model; ordered debug callback for learn()",
+        text="Histories of 3-12 jitted iteration() calls for DQN (interval 1..5) and SAC (tau, policy_frequency, autotune) on generated "
+        "finite MDPs with a counting callback: iteration counter +1, num_envs*num_steps env steps per iteration, DQN target "
+        "bit-identical to the online snapshot at the latest multiple of the interval, SAC targets = Polyak average of the new "
+        "critics exactly once (1e-12), actor/temperature gating asserted in both directions; learn() for PPO/A2C/DQN/SAC with "
+        "divisible and non-divisible totals: iteration count, counter sequence, cumulative steps.",
+        design="DESIGN.md §4 C10",
+        note="Trusted: the schedule model in the check; x64. 13 mutants all caught.",
+    ),
+    "C14": dict(
+        technique="property-based testing (Hypothesis, recursive space strategy) against a pure-Python membership/equality oracle; Gymnasium round trip",
+        text="Recursive strategy over all six space kinds (bounds incl. +-inf, low==high, -0.0; nesting) with constructed members, "
+        "boundary members, one-defect near-misses and foreign objects: contains/`in` must be a scalar boolean equal to the reference "
+        "predicate and never raise; sample (incl. masked Discrete) and canonical are members; flatten_sample size and injectivity; "
+        "==/hash on copy / perturbed / extended / zero-sign / reordered / independent pairs; round trip through Gymnasium spaces.",
+        design="DESIGN.md §4 C14",
+        note="Trusted: the `member`/`desc_equal` predicates in the check. Subnormal near-misses are not generated (XLA:CPU flushes them to zero). 18 mutants (9 fix reversals).",
+    ),
 }
 
 PENDING_REASON = "check not built yet in this round (planned, see DESIGN.md §8); not claimed until it is quiet on the unchanged tree"
